@@ -19,12 +19,15 @@ tail -1 "$OUT/tests.log"
 echo "== demo with the change"
 ( cd "$WT" && env $DEMO_ENV timeout 900 /venv/bin/python demo.py > "$OUT/demo_with.log" 2>&1 ); D1=$?
 echo "exit $D1"
-git stash -q
+# not `git stash`: the stash is shared by all worktrees of a repository, and intakes running side by side in different
+# worktrees popped each other's changes (round 9)
+git checkout -q -- nucs
 echo "== demo without the change"
 ( cd "$WT" && env $DEMO_ENV timeout 900 /venv/bin/python demo.py > "$OUT/demo_without.log" 2>&1 ); D0=$?
 echo "exit $D0"
-git stash pop -q
+git apply "$OUT/patch.diff"
 git diff --quiet -- nucs && { echo "diff lost!"; exit 2; }
+git diff -- nucs | cmp -s - "$OUT/patch.diff" || { echo "diff differs from the saved patch!"; exit 2; }
 find "$WT" -name "__pycache__" -type d -prune -exec rm -rf {} + 2>/dev/null
 RES=""
 for P in $PROPS; do
